@@ -46,6 +46,13 @@ Definition n_sp4 : str := [115; 112; 52]%N.   (* sp4 *)
 Definition n_i : str := [105]%N.   (* i *)
 Definition n_f : str := [102]%N.   (* f *)
 Definition n_g : str := [103]%N.   (* g *)
+Definition n_t : str := [116]%N.   (* t *)
+Definition n_add : str := [97; 100; 100]%N.   (* add *)
+Definition n_acc : str := [97; 99; 99]%N.   (* acc *)
+Definition n_j : str := [106]%N.   (* j *)
+Definition n_id : str := [105; 100]%N.   (* id *)
+Definition n_run : str := [114; 117; 110]%N.   (* run *)
+Definition n_z : str := [122]%N.   (* z *)
 
 Definition nv_c15 : source :=
   [ SAssign n_x (EInt 10);
@@ -141,6 +148,20 @@ Definition nv_mix : source :=
     SAssert (EBin BLt (EVar n_x) (EInt 0)) n_sp2;
     SPrint (EStr n_unreachable) ].
 
+Definition nv_loops : source :=
+  [ SAssign n_t (EInt 0);
+    SAssign n_add (EFn [n_d] [SModify n_t (EBin BAdd (EVar n_t) (EVar n_d))]);
+    SAssign n_id (EFn [n_z] [SReturn (Some (EVar n_z))]);
+    SAssign n_run (EFn [n_n] [SAssign n_acc (EInt 0);
+      SFrom (EInt 0) (EVar n_n) false None None false [SAssign n_acc (EBin BAdd (EVar n_acc) (EInt 1))];
+      SFrom (EInt 1) (EVar n_n) true (Some (EInt 2)) (Some n_j) false [SOpAssign n_acc BAdd (EVar n_j); SExpr (call n_add [(EVar n_j)])];
+      SAssign n_k (EInt 0);
+      SFrom (EInt 0) (EInt 3) false None (Some n_k) true [SIf (EBin BEq (EVar n_k) (EInt 1)) [SContinue]; SAssign n_acc (EBin BAdd (EVar n_acc) (EVar n_k))];
+      SFrom (call n_id [(EInt 0)]) (EInt 10) false (Some (EBin BAdd (EVar n_k) (EInt 0))) None false [SIf (EBin BGt (EVar n_acc) (EInt 100)) [SBreak]; SAssign n_acc (EBin BMul (EVar n_acc) (EInt 2))];
+      SReturn (Some (EBin BAdd (EVar n_acc) (EVar n_k)))]);
+    SPrint (call n_run [(EInt 4)]);
+    SPrint (EVar n_t) ].
+
 (* operands left to right, once; && / || skip the call on the right when the left operand decides; x is read when its
    operand is evaluated (before a later sibling modifies it); self(..) in `rec`: 31 lines *)
 Example C15_nv_order_program :
@@ -176,3 +197,13 @@ Example C01_nv_mixed_program :
   fst (vm_out nv_mix 5000) = fst (run 5000 nv_mix) /\
   (exists fs, snd (vm_out nv_mix 5000) = RuntimeErr (E_assert n_sp2) fs).
 Proof. vm_compute. repeat split. eexists. reflexivity. Qed.
+
+(* from loops of every form inside a function that also calls a closure writing through a captured variable: an
+   anonymous counter, a named fresh counter with `through` and a step, a colliding counter (an existing local, kept after
+   the loop) with `continue`, an anonymous stepped loop whose lower bound is a call and whose step reads a local, left by
+   `break` *)
+Example C01_nv_loops_program :
+  in_fragment2 nvp nv_loops = true /\ in_fragment nvp nv_loops = true /\
+  vm_out nv_loops 5000 = (fst (run 5000 nv_loops), Done) /\ snd (run 5000 nv_loops) = RODone /\
+  fst (run 5000 nv_loops) = [[49; 54; 51]; [52]]%N.
+Proof. vm_compute. repeat split. Qed.
